@@ -4,7 +4,7 @@ import math
 from hypothesis import strategies as st
 
 from .. import repo, strategies as S, tmcases as T
-from ..core import SubCheck, Fail, Discard, metric, target
+from ..core import SubCheck, Fail, Discard, metric, target, is_seq
 from ..oracles import tm_exact
 
 RULE = ("zone 1..60 (longitudes kept inside [-180, 180]), both hemispheres, first point at lat -80..84 with easting 100 000..900 000 m, "
@@ -106,20 +106,21 @@ def check_inverse_definition(case):
     cv, ell, z1, e1, n1, z2, e2, n2, hemi = _setup(case)
     ha, hk = _hargs(case, hemi, ell)
     got = gd.vincinv_utm(z1, e1, n1, z2, e2, n2, *ha, **hk)
-    if not (isinstance(got, tuple) and len(got) == 4):
+    if not is_seq(got, 4):
         raise Fail("vincinv_utm did not return (grid distance, bearing 1->2, bearing 2->1, line scale factor)", observed=repr(got))
     gdist, b12, b21, lsf = got
     p1 = cv.grid2geo(z1, e1, n1, hemi, ell)
     p2 = cv.grid2geo(z2, e2, n2, hemi, ell)
     ed, a12, a21 = gd.vincinv(p1[0], p1[1], p2[0], p2[1], ell)
-    if not abs(gdist - ed * lsf) <= 1e-9 * max(ed, 1.0):
+    # (the geodesic distance is reported to the millimetre and grid quantities to 0.1 mm: agreement to 0.2 mm + 1e-9 of the length)
+    if not abs(gdist - ed * lsf) <= 2e-4 + 1e-9 * ed:
         raise Fail("grid distance is not the ellipsoidal geodesic distance multiplied by the line scale factor",
                    expected=ed * lsf, observed={"grid_dist": gdist, "ell_dist": ed, "lsf": lsf})
     if not (_angdiff(b12, a12 + p1[3]) <= 1e-9 and _angdiff(b21, a21 + p2[3]) <= 1e-9):
         raise Fail("grid bearings are not the geodetic azimuths plus the grid convergence at each end (each in its own zone)",
                    expected={"b12": a12 + p1[3], "b21": a21 + p2[3]}, observed={"b12": b12, "b21": b21})
     lsf2 = gd.line_sf(z1, e1, n1, z2, e2, n2, *ha, **hk)
-    if lsf2 != lsf:
+    if not abs(lsf2 - lsf) <= 1e-9:
         raise Fail("vincinv_utm's line scale factor is not line_sf of the same arguments", expected=lsf2, observed=lsf)
     # independent sanity of the grid bearing: plane bearing of the chord in zone 1 differs only by the arc-to-chord
     # correction, which is below 0.01 deg for lines up to 100 km inside a zone
@@ -150,7 +151,7 @@ def check_direct_inverts(case):
     if case.get("bkind", "float") != "float":
         brg = S.angle_obj(case["bkind"], b12 % 360.0)      # the bearing as an angle object (documented for vincdir_utm)
     got = gd.vincdir_utm(z1, e1, n1, brg, gdist, *ha, **hk)
-    if not (isinstance(got, tuple) and len(got) == 5):
+    if not is_seq(got, 5):
         raise Fail("vincdir_utm did not return (zone, east, north, bearing 2->1, line scale factor)", observed=repr(got))
     zz, ee, nn, rb, lsf_d = got
     if zz != z1:
